@@ -220,6 +220,32 @@ def run(ctx):
             except Exception as ex:
                 spec_fail.append((kind, "initial-walker checks run", {"norb": norb, "nelec": ne, "restricted": restricted, "error": repr(ex)[:300]}))
 
+    # spin-broken trial density matrices in a closed shell, restricted walkers: Neel-type product states (up and down orbitals
+    # on disjoint or partly disjoint sites - exactly orthogonal pairs) and generic ones; the generator must return a walker with
+    # overlap bounded away from zero or refuse
+    from ad_afqmc import wavefunctions as _wfm
+    for up_sites, dn_sites, norb in (((0, 2), (1, 3), 4), ((0, 1, 2), (0, 3, 4), 5), ((0, 1), (0, 2), 4), ((0, 1), (2, 3), 4)):
+        try:
+            k = len(up_sites)
+            eye = np.eye(norb)
+            ca, cb = eye[:, list(up_sites)], eye[:, list(dn_sites)]
+            trial = _wfm.uhf(norb, (k, k))
+            wd = {"mo_coeff": [jnp.array(ca), jnp.array(cb)], "rdm1": jnp.array([ca @ ca.T, cb @ cb.T])}
+            init_cases += 1
+            try:
+                w0 = trial.get_init_walkers(wd, 2, restricted=True)
+            except ValueError:
+                continue            # explicit refusal
+            W = np.array(w0)[0]
+            ov = abs(np.linalg.det(ca.T @ W) * np.linalg.det(cb.T @ W))
+            if not np.isfinite(ov) or ov < 1e-3:
+                spec_fail.append(("uhf (spin-broken density matrix, restricted walkers)",
+                                  "initial walkers have a trial overlap bounded away from zero (or the generator refuses)",
+                                  {"norb": norb, "up_sites": list(up_sites), "dn_sites": list(dn_sites), "overlap": float(ov)}))
+        except Exception as ex:
+            spec_fail.append(("uhf (spin-broken density matrix, restricted walkers)", "initial-walker generation runs or refuses with ValueError",
+                              {"up_sites": list(up_sites), "dn_sites": list(dn_sites), "error": repr(ex)[:300]}))
+
     # orthonormalisation inside free projection, over consecutive steps: the accumulated norm factors x the stored
     # orthonormal walker must stay the un-normalised state, and the stored overlaps its overlap (shared with C05)
     from props import c05
